@@ -19,7 +19,12 @@ centroid_sources`` and compared with
 * for ``centroid_sources`` a direct call of the centroid function on an
   independently computed cutout of every position (bit-exact), for position
   lists of length 1-3 in every order, on a finite image and on an image with an unmasked non-finite pixel in
-  every cutout (+ garbage underneath the mask).
+  every cutout (+ garbage underneath the mask), and
+* for ``centroid_com`` its documented N-DIMENSIONAL domain: 1-D ... 5-D (thorough: 6-D) boxes judged by the moment
+  definition with the coordinates in pixel order (x, y, z, ...: last numpy axis first), by the COMPLETE symmetry
+  group of the box (every permutation of the axes x every subset of flipped axes), rescaling, the mask variants and
+  N-d point-symmetric sources about every half-pixel lattice centre; the 2-D-only functions are offered the same N-d
+  symmetric sources (they reject them on the pinned tree).
 """
 import itertools
 import math
@@ -27,6 +32,7 @@ import warnings
 
 import numpy as np
 
+from ..ref import c17_nd as ND
 from ..runner import Acc
 
 PROPERTY = 'C17'
@@ -53,8 +59,28 @@ RULE = ('full Cartesian products: (sym) every cutout shape in {3..9}^2 x every s
         'image, image with one unmasked non-finite pixel in every cutout and finite garbage underneath the mask, the same '
         'with the mask carried by a MaskedArray image (Gaussian fits)}. A case counts as non-trivial '
         'when the rule of its clause applies (well-posedness rules are evaluated on the INPUT and stated next to '
-        'each clause); for sources: the list has >= 2 positions.')
+        'each clause); for sources: the list has >= 2 positions; '
+        '(nd) centroid_com on N-dimensional boxes: ndim x every shape of the tier (quick: 1-D n=3..9, 2-D {3,4,5}^2, '
+        '3-D {3,4,5}^3, 4-D {3,4}^4, 5-D (3,4,3,4,3); thorough: 1-D 3..12, {3..6}^2, {3..6}^3, {3,4,5}^4, {3,4}^5, 6-D '
+        '(3,4,3,4,3,4)) x {signed, positive, off-centre blob with a different displacement on every axis} x mask '
+        'variant {none, mask over 1e6 / NaN, NaN / inf instead of the mask, mask over finite garbage + unmasked NaN / '
+        '-inf elsewhere} x EVERY element of the symmetry group of the box (all n! axis permutations x all 2^n flip '
+        'subsets: 2, 8, 48, 384, 3840, 46080 elements) + {x2, x1e-3}, judged by the fsum moment definition with the '
+        'result in pixel order (last numpy axis first, one coordinate per axis), bit-exact equality with the call on '
+        'the clean array with every excluded pixel in mask=, and covariance under every group element; non-trivial = '
+        'all coordinates of the centre of mass pairwise differ by > 1e-6; (ndsym) the same shapes x every symmetry '
+        'centre on the half-pixel lattice with >= 1 px of support on every axis x {zero-filled, masked garbage incl. '
+        'NaN / inf, masked garbage + point-symmetric pair of unmasked NaN / +inf} for centroid_com (symmetry centre, '
+        'mask-blind) and, for ndim != 2, the 2-D-only functions on the first two variants (an exception = input outside '
+        'their documented domain, counted as skipped; an accepted array must give the symmetry centre); non-trivial = '
+        'the centre coordinates are pairwise different.')
 ASSUMPTIONS = ['numpy, math.fsum, astropy.modeling fitters (TRFLSQFitter) are trusted',
+               'centroid_com is documented for n-dimensional arrays with the result "in pixel order (e.g. (x, y) or (x, y, z)), not '
+               'numpy axis order": read as one coordinate per axis, the coordinate along the LAST numpy axis first (reversed axis '
+               'order) -- "transposition" of an N-d array is generalised to every permutation of its axes, "flips" to every subset '
+               'of axes; centroid_quadratic / centroid_1dg / centroid_2dg / centroid_sources document 2-D data: an exception on a '
+               'non-2-D array is outside the statement (skipped and counted), whatever its type; inputs whose unmasked finite '
+               'total is 0 (mean undefined) are not judged (pinned tree: a 2-element NaN array whatever the dimension)',
                'the masked pixels of a MaskedArray input are masked pixels in the sense of the statement for centroid_1dg / '
                'centroid_2dg (which combine that mask with mask=); centroid_com / centroid_quadratic document data as a plain '
                'ndarray and are not judged on MaskedArray inputs',
@@ -929,6 +955,171 @@ def check_sources(acc, case, seed, F, cache=None):
 
 
 # ----------------------------------------------------------------------------
+# (nd) centroid_com on N-dimensional arrays.  Documented: "the centroid of an n-dimensional array", result "in pixel
+# order (e.g. (x, y) or (x, y, z)), not numpy axis order" -- the coordinate along the LAST axis first.  The other
+# functions document 2-D data; on the pinned tree they reject every non-2-D array with an exception.
+ND_SHAPES_QUICK = {1: [(n,) for n in range(3, 10)],
+                   2: list(itertools.product((3, 4, 5), repeat=2)),
+                   3: list(itertools.product((3, 4, 5), repeat=3)),
+                   4: list(itertools.product((3, 4), repeat=4)),
+                   5: [(3, 4, 3, 4, 3)]}
+ND_SHAPES_THOROUGH = {1: [(n,) for n in range(3, 13)],
+                      2: list(itertools.product((3, 4, 5, 6), repeat=2)),
+                      3: list(itertools.product((3, 4, 5, 6), repeat=3)),
+                      4: list(itertools.product((3, 4, 5), repeat=4)),
+                      5: list(itertools.product((3, 4), repeat=5)),
+                      6: [(3, 4, 3, 4, 3, 4)]}
+ND_SCALES = (('scale2', 2.0), ('scale1e-3', 1.0e-3))
+NDSYM_VARIANTS = ('zero', 'masked', 'masked+nf')
+ND_REJECT = '2-D-only centroid function (data documented as 2D) given a non-2-D array: rejected with an exception'
+
+
+def nd_shapes(tier):
+    return ND_SHAPES_THOROUGH if tier == 'thorough' else ND_SHAPES_QUICK
+
+
+def call_nd(f, data, **kw):
+    """like call(), without a demand on the shape of the result"""
+    kw = {k: (v.copy() if isinstance(v, np.ndarray) else v) for k, v in kw.items() if v is not None}
+    try:
+        with warnings.catch_warnings():
+            warnings.simplefilter('ignore')
+            r = f(data.copy(), **kw)
+        return 'ok', np.asarray(r, dtype=float)
+    except Exception as e:  # decided by the caller
+        return 'exc', f'{type(e).__name__}: {e}'
+
+
+def nd_class(ndim):
+    return 'ndim<=2' if ndim <= 2 else 'ndim>=3'
+
+
+def check_nd(acc, case, seed, F):
+    shape = tuple(case['shape'])
+    ndim = len(shape)
+    kind, mvar = case['kind2'], case['mask']
+    f = F['com']
+    d0 = ND.make_generic_nd(shape, kind, rng_for(seed, 6, ND.ND_KINDS.index(kind), *shape))
+    built = ND.build_masked(d0, mvar)
+    if built is None:
+        acc.skip('nd: fewer than 6 pixels, no room for 2 masked + 2 non-finite pixels')
+        return
+    d, user, excl = built
+    ref, tol = ND.ref_com_nd(d, excl)
+    if ref is None:
+        acc.skip('nd: total of the unmasked finite pixels is 0 (mean undefined)')
+        return
+    # non-trivial: every pair of coordinates of the centre of mass differs (an axis mix-up is visible)
+    gaps = [abs(ref[i] - ref[j]) for i in range(ndim) for j in range(i)]
+    st, r = call_nd(f, d, mask=user)
+    acc.case(nontrivial=(not gaps or min(gaps) > 1e-6), sample=case if acc.evaluations % 61 == 7 else None)
+    cls = nd_class(ndim) + ('' if mvar == 'none' else ':masked')
+    if st != 'ok':
+        acc.violation('generic-raises', f'com:{cls}', case, r, 'no exception', 'valid call on an n-dimensional array raised')
+        return
+    if r.shape != (ndim,):
+        acc.violation('nd-result-shape', f'com:{nd_class(ndim)}', case, list(r.shape), [ndim],
+                      'one coordinate per axis expected')
+        return
+    acc.outcome((ndim, round(float(r[0]), 5)))
+    if not np.all(np.abs(r - ref) <= tol):
+        acc.violation('com-definition', f'nd:{cls}', case, r, ref,
+                      'sum(x_k d)/sum(d) over the unmasked finite pixels, coordinates in pixel order '
+                      f'(last numpy axis first); tol {tol.tolist()}')
+    if mvar != 'none':
+        # canonical call: the clean array with every excluded pixel flagged in mask= (zero-filled sums: bit-exact)
+        st3, r3 = call_nd(f, d0, mask=excl)
+        if st3 != 'ok' or not np.array_equal(r, r3, equal_nan=True):
+            clause = {'nan': 'nonfinite-as-masked', 'mask+nf': 'masked-and-nonfinite-as-masked'}.get(mvar, 'mask-blind')
+            acc.violation(clause, f'com:nd:{nd_class(ndim)}', case, r, r3,
+                          'differs from the same call with every masked / non-finite pixel flagged in mask= (clean values underneath)')
+    ident = (0,) * ndim
+    for perm, flips in ND.signed_perms(ndim)[1:]:
+        d2 = ND.apply_sp(d, perm, flips)
+        u2 = None if user is None else ND.apply_sp(user, perm, flips)
+        st2, r2 = call_nd(f, d2, mask=u2)
+        want = ND.map_sp(r, shape, perm, flips)
+        # both results are within tol of the exact mean of their (identical) multiset of terms; + rounding of n-1-c
+        t2 = 2 * ND.map_sp(tol, shape, perm, ident) + 8 * EPS * max(shape)
+        ttype = ND.sp_type(perm, flips)
+        if st2 != 'ok' or r2.shape != (ndim,):
+            acc.violation('commute-raises', f'com:nd:{ttype}', case, r2 if st2 != 'ok' else list(r2.shape), want)
+            continue
+        if not np.all(np.abs(r2 - want) <= t2):
+            acc.violation('commutes', f'com:nd:{nd_class(ndim)}:{ttype}', case, r2, want,
+                          f'f(T(data)) != T(f(data)) for T = transpose{list(perm)} then flip of axes {list(flips)}; '
+                          f'|dev|={np.abs(r2 - want).max():.3g}, tol={t2.tolist()}')
+    for tname, fac in ND_SCALES:
+        st2, r2 = call_nd(f, d * fac, mask=user)
+        t2 = np.zeros(ndim) if tname == 'scale2' else 2 * tol + 8 * EPS * max(shape)     # x2 is exact in binary
+        if st2 != 'ok' or r2.shape != (ndim,):
+            acc.violation('commute-raises', f'com:nd:{tname}', case, r2 if st2 != 'ok' else list(r2.shape), r)
+        elif not np.all(np.abs(r2 - r) <= t2):
+            acc.violation('commutes', f'com:nd:{nd_class(ndim)}:{tname}', case, r2, r, f'positive rescaling; tol={t2.tolist()}')
+
+
+def check_ndsym(acc, case, seed, F):
+    shape = tuple(case['shape'])
+    ndim = len(shape)
+    c2 = tuple(case['c2'])                    # doubled centre, numpy axis order
+    variant = case['variant']
+    c = np.array(c2[::-1]) / 2.0              # pixel order
+    s, sup = ND.make_sym_nd(shape, c2, rng_for(seed, 7, *shape, *c2))
+    data, mask = s, None
+    if variant != 'zero':
+        data = s.copy()
+        rng = rng_for(seed, 8, *shape, *c2)
+        for j, i in enumerate(np.argwhere(~sup)):
+            data[tuple(i)] = ND.GARBAGE[(j + rng.integers(0, 6)) % 6]
+        mask = ~sup
+    if variant == 'masked+nf':
+        # a point-symmetric PAIR of unmasked non-finite pixels inside the support
+        for i in np.argwhere(sup):
+            i = tuple(int(t) for t in i)
+            m = ND.mirror_index(i, c2)
+            if m != i:
+                data[i] = np.nan
+                data[m] = np.inf
+                break
+    cls = nd_class(ndim)
+    for name in FUNC_NAMES:
+        if name != 'com' and (ndim == 2 or variant == 'masked+nf'):
+            continue          # 2-D inputs of the other functions: the (sym) family
+        st, r = call_nd(F[name], data, mask=mask)
+        if name != 'com':
+            # documented as 2-D only.  Rejecting the array (any exception) is outside the statement; a function that
+            # ACCEPTS an n-dimensional point-symmetric source has to return its symmetry centre like every other one.
+            if st != 'ok':
+                acc.skip(ND_REJECT)
+                continue
+            acc.case(nontrivial=True)
+            if r.shape != (ndim,) or not np.all(np.abs(r - c) <= 1e-6):
+                acc.violation('symmetry-centre', f'{name}:{cls}:non-2D-input-accepted', case, r, c,
+                              'a non-2-D array was accepted but the symmetry centre (pixel order) was not returned')
+            continue
+        acc.case(nontrivial=len(set(c2)) == ndim, sample=dict(case, func=name) if acc.evaluations % 997 == 3 else None)
+        if st != 'ok':
+            acc.violation('sym-raises', f'com:{cls}', case, r, 'no exception', 'valid call raised')
+            continue
+        if r.shape != (ndim,):
+            acc.violation('nd-result-shape', f'com:{cls}', case, list(r.shape), [ndim], 'one coordinate per axis expected')
+            continue
+        acc.outcome((ndim,) + tuple(round(float(t), 6) for t in r))
+        # positive data, <= 4096 terms: rounding <= terms * eps * max coordinate ~ 1e-11 worst, measured <= 2e-15
+        if not np.all(np.abs(r - c) <= 1e-10):
+            acc.violation('symmetry-centre', f'com:{cls}:' + ('masked' if mask is not None else 'unmasked')
+                          + ('+nonfinite' if variant == 'masked+nf' else ''), case, r, c,
+                          f'point-symmetric n-dimensional source about {c.tolist()} (pixel order), |dev|={np.abs(r - c).max():.3g}')
+        if mask is not None and mask.any():
+            d2 = data.copy()
+            for j, i in enumerate(np.argwhere(mask)):
+                d2[tuple(i)] = ND.GARBAGE[(j + 3) % 6] if j % 2 else 0.125 * j
+            st2, r2 = call_nd(F[name], d2, mask=mask)
+            if st2 != 'ok' or not np.array_equal(r, r2, equal_nan=True):
+                acc.violation('mask-blind', f'com:{cls}', case, r2, r, 'changing values of masked pixels changed the result')
+
+
+# ----------------------------------------------------------------------------
 def shapes(tier):
     return [(ny, nx) for ny in range(3, 10) for nx in range(3, 10)]
 
@@ -996,6 +1187,13 @@ def plan(tier, seed):
             units.append({'kind': 'qsearch', 'shape': [ny, nx], 'data': ds[j:j + 3]})
     for cfg in source_scene_configs():
         units.append({'kind': 'sources', 'cfg': list(cfg)})
+    for ndim, shs in nd_shapes(tier).items():
+        per = {1: 99, 2: 99, 3: 9, 4: 2, 5: 1, 6: 1}[ndim]       # the symmetry group has 2^n n! elements
+        for j in range(0, len(shs), per):
+            units.append({'kind': 'nd', 'shapes': [list(sh) for sh in shs[j:j + per]]})
+        per = {1: 99, 2: 99, 3: 16, 4: 27, 5: 8, 6: 1}[ndim]
+        for j in range(0, len(shs), per):
+            units.append({'kind': 'ndsym', 'shapes': [list(sh) for sh in shs[j:j + per]]})
     return units
 
 
@@ -1024,6 +1222,16 @@ def run_unit(unit, tier, seed):
         for dspec in unit['data']:
             for case in qsearch_cases(tier, ny, nx, dspec):
                 check_qsearch(acc, case, seed, F)
+    elif kind == 'nd':
+        for sh in unit['shapes']:
+            for k in ND.ND_KINDS:
+                for mvar in ND.ND_MASKS:
+                    check_nd(acc, {'kind': 'nd', 'shape': list(sh), 'kind2': k, 'mask': mvar}, seed, F)
+    elif kind == 'ndsym':
+        for sh in unit['shapes']:
+            for c2 in ND.sym_centres_nd(sh):
+                for variant in NDSYM_VARIANTS:
+                    check_ndsym(acc, {'kind': 'ndsym', 'shape': list(sh), 'c2': list(c2), 'variant': variant}, seed, F)
     else:
         fname, spec, use_mask, extra = unit['cfg'][:4]
         scn = unit['cfg'][4] if len(unit['cfg']) > 4 else 'plain'
@@ -1046,6 +1254,10 @@ def replay(case, seed):
         check_quad(acc, case, seed, F)
     elif kind == 'qsearch':
         check_qsearch(acc, case, seed, F)
+    elif kind == 'nd':
+        check_nd(acc, case, seed, F)
+    elif kind == 'ndsym':
+        check_ndsym(acc, case, seed, F)
     else:
         check_sources(acc, case, seed, F)
     return acc
@@ -1082,4 +1294,19 @@ def describe(tier, seed):
                     'scenes': list(SCENES), 'non-finite pixels ((x, y), value)': [[list(p), str(v)] for p, v in NF_PIXELS],
                     'garbage underneath the mask (nf scenes, mask given)': [1.0e4, -2.0e3],
                     'cutout': list(SPECS), 'mask': [False, True], 'extra': ['none', 'error', 'xpeak/ypeak', 'xpeak/ypeak/search_boxsize=3 (quad)'],
-                    'functions': list(FUNC_NAMES)}}}
+                    'functions': list(FUNC_NAMES)},
+        'nd (centroid_com on n-dimensional boxes)': {
+            'shapes per ndim': {str(k): (f'{len(v)} shapes: ' + (str([list(x) for x in v]) if len(v) <= 9 else
+                                          f'{list(v[0])} ... {list(v[-1])} (full product of the per-axis sizes)'))
+                                for k, v in nd_shapes(tier).items()},
+            'kinds': list(ND.ND_KINDS), 'mask': list(ND.ND_MASKS),
+            'excluded pixels': 'end of the last axis in the first row, middle of the first axis, + 2 more distinct pixels (mask+nf; needs >= 6 pixels)',
+            'transforms': {str(k): f'{len(ND.signed_perms(k))} = {math.factorial(k)} axis permutations x {2 ** k} flip subsets (identity = the case itself)'
+                           for k in nd_shapes(tier)},
+            'rescaling': [t for t, _ in ND_SCALES],
+            'clauses': ['nd-result-shape', 'com-definition (fsum bound)', 'nonfinite-as-masked / masked-and-nonfinite-as-masked / mask-blind (bit-exact)',
+                        'commutes (2 x fsum bound + 8 eps n; x2 exact)']},
+        'ndsym (n-dimensional point-symmetric sources)': {
+            'shapes': 'as nd', 'centres': 'half-pixel lattice, 1 <= c <= n-2 on every axis (prod(2n-5) per shape)',
+            'variants': list(NDSYM_VARIANTS),
+            'functions': 'com (symmetry centre 1e-10, mask-blind bit-exact); quad / 1dg / 2dg for ndim != 2 on zero / masked: exception -> skipped, accepted -> symmetry centre'}}}
